@@ -10,6 +10,7 @@ import Vuego.Driver.CacheOp
 import Vuego.Driver.MergeOp
 import Vuego.Driver.FmtOp
 import Vuego.Driver.MdOp
+import Vuego.Driver.CallOp
 namespace Vuego.Driver
 open Lean
 
@@ -18,6 +19,8 @@ def handle (j : Json) : Json :=
   | "overlay" => overlayOp j
   | "stackops" => stackOps j
   | "truthy" => truthyOp j
+  | "callconv" => callConvOp j
+  | "callarity" => callArityOp j
   | "splitpath" => splitPathOp j
   | "render" => renderOp j
   | "tokenize" => tokenizeOp j
